@@ -80,6 +80,8 @@ pub enum Op {
     Nested(usize, usize),
     /// the same, but the nested model panics while handling its event (the error is handled here)
     NestedPanic(usize, usize),
+    /// the handler is busy for that many milliseconds (harness only; invisible to the model)
+    Sleep(u64),
 }
 #[derive(Clone, Debug)]
 pub struct MSpec {
@@ -247,6 +249,7 @@ impl<'a> P<'a> {
                 let t = self.us();
                 Op::NestedPanic(t, self.us())
             }
+            "slp" => Op::Sleep(self.us() as u64),
             t => panic!("op {}", t),
         }
     }
@@ -633,6 +636,7 @@ impl SM {
                 }
                 Op::Nested(t, k) => nested(*t, *k, false),
                 Op::NestedPanic(t, k) => nested(*t, *k, true),
+                Op::Sleep(ms) => std::thread::sleep(Duration::from_millis(*ms)),
             }
         }
     }
